@@ -11,8 +11,9 @@ IMPORTS = "From JV Require Import Lib.Base Model.Ns Model.NsRun Model.NsGuard Sp
 RULE = ("histories of Namespace operations {set, setattr, get, get-default, contains, step-by-step get, del, pop, update(value), "
         "update(ns), update(only_unset), clone, items/keys/values(branches), as_dict + namespace_to_dict, ==/!= against a built "
         "value, Namespace(dict), dict_to_namespace(dict)} starting from an empty namespace; keys of depth 1-3 over ordinary names "
-        "and the method-name clashes; scalar/None/list/tuple/dict/namespace values. quick: every history of length <=2 over a "
-        "fixed operation alphabet (78 operations), 16 hand-written histories through dicts and Namespaces inside dicts, 400 equality histories [ns[k]=V; (random step); ns == re-ordered or "
+        "and the method-name clashes; scalar/None/list/tuple/dict/namespace values; the dictionaries given to ns[k]=, Namespace(dict) and "
+        "dict_to_namespace hold scalars, None, lists, tuples (also holding dicts / lists / tuples), nested dicts and lists of dicts. quick: every history of length <=2 over a "
+        "fixed operation alphabet (79 operations), 16 hand-written histories through dicts and Namespaces inside dicts, 400 equality histories [ns[k]=V; (random step); ns == re-ordered or "
         "one-place-perturbed V], and 1500 seeded random histories of length 3-40 (thorough: also length-3 products and 30000 random); "
         "after EVERY step the output and the whole __dict__ tree are compared with model and spec. "
         "non-trivial = history with at least one successful mutation; distinct = distinct (history, observations)")
@@ -132,7 +133,8 @@ def small_alphabet():
     ops += [{"op": "eq", "v": NS()}, {"op": "eq", "v": NS(a=I(1))}, {"op": "eq", "v": NS(a=NS(b=I(1)))},
             {"op": "eq", "v": NS(items=I(1))}, {"op": "eq", "v": NS(a=D(items=I(2), b=I(1)))}, {"op": "eq", "v": D(a=I(1))},
             {"op": "fromdict", "v": D(**{"a.b": I(1), "items": D(x=I(2), keys=L(D(a=I(1)), I(2))), "a": D(items=I(3))})},
-            {"op": "fromdict", "v": D(a=D(), b=L(L(D(a=I(1)))), **{"a.b c": I(1)})}]
+            {"op": "fromdict", "v": D(a=D(), b=L(L(D(a=I(1)))), **{"a.b c": I(1)})},
+            {"op": "fromdict", "v": D(a=T(I(1), T(I(2), I(3))), items=D(keys=T(D(a=I(1)), L(I(2))), b=T()), b=L(T(I(1), I(2)), D(x=T(I(3)))))}]
     return ops
 
 
@@ -152,9 +154,15 @@ def random_value(rng, depth=0):
 
 
 def random_dict_value(rng, depth):
+    """a value held by a dictionary: scalars, None, lists, TUPLES (also holding dicts / lists / tuples), nested dicts, lists
+    holding dicts — every kind of leaf a nested dictionary given to Namespace(dict) / dict_to_namespace / ns[k]= can hold"""
     r = rng.random()
-    if depth > 2 or r < 0.6:
-        return rng.choice([I(rng.randint(0, 3)), S("x"), NONE, L(I(1))])
+    if depth > 2 or r < 0.45:
+        return rng.choice([I(rng.randint(0, 3)), S("x"), NONE, L(I(1)), T(I(1), I(2)), T()])
+    if r < 0.6:
+        return T(*[random_dict_value(rng, depth + 1) for _ in range(rng.randint(1, 3))])
+    if r < 0.7:
+        return L(*[random_dict_value(rng, depth + 1) for _ in range(rng.randint(1, 3))])
     return {"d": [[k, random_dict_value(rng, depth + 1)] for k in rng.sample(NAMES, rng.randint(0, 2))]}
 
 
